@@ -101,3 +101,17 @@ Theorem C05_ignored_ref_property_resurrected_pinned :
      REnd (B "Properties"); REnd (B "Item"); REnd (B "roblox"); REndDoc]
   = Ok [mkInst 1 0 (B "Folder") (B "Folder") [(B "Future", VRef 1)]].
 Proof. exact ignored_ref_property_resurrected_pinned. Qed.
+
+(* ==== the element name the writer model gives each value type is the XML_TAG_NAME of the Rust type that writes it, regenerated
+   from rbx_xml/src/types/*.rs on every run (Gen/SourceTables.v; Proofs/SourceTablesFacts.v); it depends on the type only *)
+From RbxVerif Require Import SourceTablesFacts.
+Theorem C05_xml_tags_match_source : forallb xml_tag_ok xml_tag_samples = true.
+Proof. exact xml_tags_match_source. Qed.
+Theorem C05_xml_tag_depends_on_type_only : forall o o' v v',
+  Value.vtype v = Value.vtype v' ->
+  match XmlValues.write_xml o v, XmlValues.write_xml o' v' with
+  | Some (t, _), Some (t', _) => t = t'
+  | None, None => True
+  | _, _ => False
+  end.
+Proof. exact xml_tag_depends_on_type_only. Qed.
